@@ -3,7 +3,7 @@ from .lp import LinConstr, Bounds, CvxConstr, ConeConstr
 from .lp import ExpConstr, KLConstr, LMIConstr, IPCone
 from .lp import Vars, VarSub, Affine, Convex
 from .lp import DecRule
-from .lp import RoAffine, RoConstr
+from .lp import RoAffine, RoConstr, mark_declared
 from .lp import PiecewiseConvex, PWConstr
 from .lp import Solution, def_sol
 import numpy as np
@@ -221,6 +221,7 @@ class Model:
 
         self.obj = obj
         self.obj_support = sup_model.do_math(primal=False, obj=False)
+        mark_declared(self.obj_support, sup_model)
         self.sign = 1
         self.pupdate = True
         self.dupdate = True
@@ -267,6 +268,7 @@ class Model:
 
         self.obj = obj
         self.obj_support = sup_model.do_math(primal=False, obj=False)
+        mark_declared(self.obj_support, sup_model)
         self.sign = - 1
         self.pupdate = True
         self.dupdate = True
